@@ -423,6 +423,35 @@ fn unfriendly_probe(r: &mut Rng, m: &Model) -> String {
             _ => drop(DijkstraPred::new(&d, mk()).shortest_path(|x| x == tgt)),
         });
     }
+    // predicates that panic on their k-th call; the object is used again afterwards
+    {
+        let k = r.below(4);
+        let calls = std::cell::Cell::new(0usize);
+        let boom = |hit: bool| -> bool {
+            let c = calls.get();
+            calls.set(c + 1);
+            assert!(c != k, "predicate gives up");
+            hit
+        };
+        let d = AdjacencyList::build(m);
+        let src = [r.below(n)];
+        let mut it = BfsPred::new(&d, src.iter().copied());
+        let _ = catch(|| it.shortest_path(|x| boom(x == tgt)).map(|p| p.len()));
+        let _ = catch(|| (it.next(), it.shortest_path(|x| x == tgt).map(|p| p.len())));
+        calls.set(0);
+        let dw = build_w_usize(m);
+        let mut it = DijkstraPred::new(&dw, src.iter().copied());
+        let _ = catch(|| it.shortest_path(|x| boom(x == tgt)).map(|p| p.len()));
+        let _ = catch(|| (it.next(), it.shortest_path(|x| x == tgt).map(|p| p.len())));
+        calls.set(0);
+        let tree = BfsPred::new(&d, src.iter().copied()).predecessors();
+        let _ = catch(|| tree.search_by(r.below(n), |&x, _| boom(x == tgt)).map(|p| p.len()));
+        let _ = catch(|| tree.search(r.below(n), tgt.min(n - 1)).map(|p| p.len()));
+        calls.set(0);
+        let mp = build_map_any(m);
+        let _ = catch(|| mp.filter_vertices(|x| boom(x % 2 == 0)).order());
+        let _ = catch(|| mp.filter_vertices(|x| x % 2 == 0).order());
+    }
     // constructors from iterators: rows / weight maps / arcs
     let rows: Vec<BTreeSet<usize>> = (0..n).map(|u| m.out(u).into_iter().collect()).collect();
     let mut rows_bad = rows.clone();
